@@ -95,6 +95,8 @@ class VC:
                     k, v = elt(x)
                     out[k] = v
             return out
+        if C.ghost.get("dictcomp") is not None:
+            return C.ghost["dictcomp"](iterable, elt, cond)
         col = iterable._vc_iter()
         v = bv("v!dc", col.sort)
         xx = col.elem(v)
